@@ -211,7 +211,7 @@ def check_case(ctx, case):
     maps = []
     import itertools
 
-    for m in itertools.islice(dtl.all_recs(G, S, leafmap), 200):
+    for m in dtl.some_recs(G, S, leafmap, 200, rng):
         maps.append(m)
     m = rng.choice(maps)
     byid_g = {v: gnode[G.name[v]] for v in G.nodes}
